@@ -93,6 +93,17 @@ def build_pool():
     unk_pdb = ("ATOM      1 Xx1  UNK     1       0.000   0.000   0.000  1.00  0.00          Xx\n"
                "ATOM      2  Q1  UNK     1       0.000   0.000   1.000  1.00  0.00            \nEND\n")
     unk_sdf = "unk\n\n\n  2  1  0     0  0  0  0  0  0999 V2000\n    0.0000    0.0000    0.0000 Xx  0  0\n    0.0000    0.0000    1.0000 Qq  0  0\n  1  2  9  0  0  0  0\nM  END\n$$$$\n"
+    # spelling variants of known symbols (upper/lower case) in formats with case-sensitive lookups
+    case_pdb = ("ATOM      1 CL1  UNK     1       0.000   0.000   0.000  1.00  0.00          CL\n"
+                "ATOM      2 FE2  UNK     1       0.000   0.000   2.000  1.00  0.00          FE\n"
+                "ATOM      3  H3  UNK     1       0.000   1.000   2.000  1.00  0.00           h\nEND\n")
+    case_com = "#p hf/sto-3g\n\ncase\n\n0 1\nH 0.0 0.0 0.0\nCL 0.0 0.0 1.3\n\n"
+    case_xyz = "3\ncase variants\nCL 0.0 0.0 0.0\nfe 0.0 0.0 2.0\nh 0.0 1.0 2.0\n"
+    case_sdf = "case\n\n\n  2  0  0     0  0  0  0  0  0999 V2000\n    0.0000    0.0000    0.0000 CL  0  0\n    0.0000    0.0000    1.0000 fe  0  0\nM  END\n$$$$\n"
+    case_poscar = "case\n   1.0\n 5.0 0.0 0.0\n 0.0 5.0 0.0\n 0.0 0.0 5.0\n   CL FE\n   1 1\nCartesian\n 0.0 0.0 0.0\n 1.0 1.0 1.0\n"
+    for fname, text in (("case.pdb", case_pdb), ("case.com", case_com), ("case.xyz", case_xyz), ("case.sdf", case_sdf),
+                        ("POSCAR.case", case_poscar)):
+        pool.append({"op": "load_one", "file": fname, "fmt": None, "inline": text})
     for fname, text in (("unk.mol2", unk_mol2), ("unk.xyz", unk_xyz), ("unk.pdb", unk_pdb), ("unk.sdf", unk_sdf)):
         pool.append({"op": "load_one", "file": fname, "fmt": None, "inline": text})
     pool.append({"op": "load_many", "file": "unk.mol2", "fmt": None, "inline": unk_mol2})
@@ -301,8 +312,8 @@ def run_history(trace, refs, stats=None):
                 prev = _call_name(calls[k - 1]) if k else "-"
                 out.append(_v("outcome_differs", f"call #{k} {_call_name(call)} gave {rec} but alone in a pristine process {ref} "
                               f"(after {k} earlier calls, last {prev})", {**trace, "calls": calls[: k + 1]}, _call_name(call)))
-            if not table_reported:
-                ch = _GUARD.changed()
+            if not table_reported and _GUARD.changed():
+                ch = _GUARD.changed(tables_only=True)
                 if ch:
                     table_reported = True
                     out.append(_v("module_table_changed", f"after call #{k} {_call_name(call)}: {'; '.join(ch[:3])}",
@@ -358,9 +369,12 @@ def run_threads(trace, refs, rng=None, stats=None):
             if rec is not None and ref is not None and rec != ref:
                 out.append(_v("outcome_differs", f"client {ci} call #{k} {_call_name(call)} gave {rec} under interleaving but alone {ref}",
                               trace, _call_name(call)))
-    ch = _GUARD.changed()
+    ch = _GUARD.changed(tables_only=True) if _GUARD.changed() else []
     if ch:
         out.append(_v("module_table_changed", f"after the threaded run: {'; '.join(ch[:3])}", trace, ch[0].split(":")[0].split("[")[0]))
+    if _GUARD.changed():
+        if stats is not None and not ch:
+            stats.inc("probe.scratch_state_reset")
         _GUARD.restore()
     if disk.open_handles():
         out.append(_v("handle_leak", f"{len(disk.open_handles())} handles open after the threaded run", trace))
